@@ -100,7 +100,7 @@ impl Property for C17 {
         vec!["only bits 0-4 of the ULA read are compared here (EAR bit 6 belongs to C07/C11)", "mouse wheel and X/Y are compared as deltas from the first read (mod 16 / mod 256)"]
     }
     fn expected_probes(&self) -> Vec<&'static str> {
-        vec!["overlap_two_sources", "release_unheld", "double_press", "caps_kept_by_other_compound", "multi_row_selector", "mouse_extreme_delta", "kempston_read", "mouse_read"]
+        vec!["overlap_two_sources", "release_unheld", "double_press", "caps_kept_by_other_compound", "multi_row_selector", "mouse_extreme_delta", "kempston_read", "mouse_read", "machine_without_embedded_rom", "host_action_between_events", "tape_inserted_with_autoload"]
     }
 
     fn gen(&self, rng: &mut Rng, tier: Tier, idx: u64) -> Scenario {
@@ -108,6 +108,9 @@ impl Property for C17 {
         sc.set("m128", rng.bool() as i64);
         sc.set("mouse", rng.chance(3, 4) as i64);
         sc.set("kempston", rng.chance(7, 8) as i64);
+        sc.set("no_rom", rng.chance(1, 4) as i64);
+        sc.set("autoload", rng.chance(1, 2) as i64);
+        let host_actions = rng.chance(1, 3);
         let avoid_known = idx % 4 == 3;
         sc.set("avoid_known", avoid_known as i64);
         let n = if tier == Tier::Quick { rng.range(20, 120) } else { rng.range(20, 300) };
@@ -175,6 +178,9 @@ impl Property for C17 {
                     sc.op("ev", &[*rng.pick(&[0i64, 1, 2]), last, rng.chance(3, 4) as i64]);
                 }
             }
+            if host_actions && rng.chance(1, 10) {
+                sc.op("host", &[rng.range(0, 4), rng.range(0, 3)]);
+            }
             // scans
             let scans = rng.range(1, 3);
             for _ in 0..scans {
@@ -200,7 +206,14 @@ impl Property for C17 {
         let m128 = sc.get("m128") != 0;
         let mouse = sc.get("mouse") != 0;
         let kemp = sc.get("kempston") != 0;
-        let cfg = MCfg { m128, kempston: kemp, mouse, ..Default::default() };
+        // machines built without the embedded ROM (the host supplies its own later, or none at all: the stub
+        // runs from RAM) have the same devices; autoload makes load_tape() restore a loader snapshot
+        let no_rom = sc.get("no_rom") != 0;
+        let autoload = sc.get("autoload") != 0;
+        if no_rom {
+            ctx.probe("machine_without_embedded_rom");
+        }
+        let cfg = MCfg { m128, kempston: kemp, mouse, rom: !no_rom, autoload, ..Default::default() };
         let mut e = new_emu(&cfg);
         write_mem(&mut e, 0x8000, &[0xED, 0x78]); // IN A,(C)
         let mut m = RefInputs::default();
@@ -284,6 +297,37 @@ impl Property for C17 {
                         }
                     }
                     ctx.units += 1;
+                }
+                "host" => {
+                    // host actions that are no input events: what the controls hold stays what it is
+                    use rustzx_core::host::{Screen, Snapshot, Tape};
+                    ctx.probe("host_action_between_events");
+                    let r: Result<(), String> = match op.arg(0).rem_euclid(5) {
+                        0 => {
+                            if autoload {
+                                ctx.probe("tape_inserted_with_autoload");
+                            }
+                            let tap = zxref::tape::make_tap(&[zxref::tape::std_block(0xFF, &[1, 2, 3])]);
+                            e.load_tape(Tape::Tap(crate::host::AnyAsset::Sim(crate::host::SimAsset::plain(tap)))).map_err(|x| format!("load_tape: {:?}", x))
+                        }
+                        1 => {
+                            let sn = crate::snapfmt::SnapState::new(m128);
+                            let bytes = if m128 { crate::snapfmt::write_sna128(&sn) } else { crate::snapfmt::write_sna48(&sn) };
+                            e.load_snapshot(Snapshot::Sna(crate::host::SimAsset::plain(bytes))).map_err(|x| format!("load_snapshot: {:?}", x))
+                        }
+                        2 => {
+                            let _ = e.load_snapshot(Snapshot::Sna(crate::host::SimAsset::plain(vec![0u8; 77])));
+                            Ok(())
+                        }
+                        3 => e.load_screen(Screen::Scr(crate::host::SimAsset::plain(vec![0x55u8; 6912]))).map_err(|x| format!("load_screen: {:?}", x)),
+                        _ => {
+                            e.set_fast_load(op.arg(1) & 1 == 1);
+                            e.set_sound(op.arg(1) & 2 == 2);
+                            Ok(())
+                        }
+                    };
+                    r.map_err(|x| Fail::new("C17.host_action", "", x))?;
+                    write_mem(&mut e, 0x8000, &[0xED, 0x78]);
                 }
                 "scan" => {
                     let sel = op.arg(0) as u8;
